@@ -122,7 +122,7 @@ func (c *Ctx) patchProjection(prefix string) {
 	}
 	classify = func(e ast.Expr, depth int) cls {
 		e = ast.Unparen(e)
-		if depth > 6 {
+		if depth > 16 {
 			return cls{kind: "other"}
 		}
 		if tv, ok := info.Types[e]; ok && tv.Value != nil {
@@ -228,6 +228,47 @@ func (c *Ctx) patchProjection(prefix string) {
 	}
 	checkFresh(m.obj, "", 0)
 	c.Floor(prefix+"-patch-stores", n, 3)
+	// the recorded form is the encoder's: "unchanged template" is decided by comparing bytes with what earlier
+	// reconciles (and the controller this one took over from) have stored, so nothing is taken out of, or put into,
+	// the decoded tree at any depth -- but for the $patch directive on the template
+	nTree := 0
+	ast.Inspect(fi.Decl.Body, func(x ast.Node) bool {
+		switch y := x.(type) {
+		case *ast.AssignStmt:
+			for li, l := range y.Lhs {
+				ix, ok := ast.Unparen(l).(*ast.IndexExpr)
+				if !ok {
+					continue
+				}
+				base := classify(ix.X, 0)
+				if base.kind != "proj" {
+					continue
+				}
+				nTree++
+				k, _ := constKey(ix.Index)
+				good := false
+				if len(y.Rhs) == len(y.Lhs) {
+					if pv, isC := info.Types[y.Rhs[li]]; isC && pv.Value != nil {
+						good = k == "$patch" && strings.Trim(pv.Value.ExactString(), `"`) == "replace" && len(base.path) == 2 && base.path[0] == "spec" && base.path[1] == "template"
+					}
+				}
+				c.Check(good, prefix+"-recorded-form-is-the-encoders", "getPatch: "+types.ExprString(l)+" = …", y.Pos(), `the $patch directive on spec.template`,
+					"the decoded tree is edited at "+strings.Join(base.path, ".")+"["+k+"] before it is recorded: the bytes differ from those of the revisions already stored for the same template, an unchanged template no longer matches its revision and a new revision (and a rolling restart) follows")
+			}
+		case *ast.CallExpr:
+			if id, ok := y.Fun.(*ast.Ident); ok && id.Name == "delete" && len(y.Args) == 2 {
+				if _, isBuiltin := info.Uses[id].(*types.Builtin); isBuiltin {
+					if base := classify(y.Args[0], 0); base.kind == "proj" {
+						nTree++
+						c.Bad(prefix+"-recorded-form-is-the-encoders", "getPatch: "+types.ExprString(y), y.Pos(),
+							"an entry is deleted from the decoded tree at "+strings.Join(base.path, ".")+" before it is recorded: the bytes differ from those of the revisions already stored for the same template, an unchanged template no longer matches its revision and a new revision (and a rolling restart) follows")
+					}
+				}
+			}
+		}
+		return true
+	})
+	c.Floor(prefix+"-decoded-tree-stores", nTree, 1)
 	// the revision constructor uses that patch as Data.Raw and nothing else from the set but labels/annotations (which equality ignores)
 	if nr := c.Func(load.CtrlPkg, "newRevision"); nr != nil {
 		ninfo := nr.Pkg.TypesInfo
